@@ -729,6 +729,10 @@ fn describe(cx: &Cx, name: &str, body: (usize, usize)) -> Row {
 }
 
 pub struct Extracted {
+    /// the extract helpers: name, parsed type, text of a parse failure, every literal
+    pub helpers: Vec<Row>,
+    /// what a command name without an arm answers (ZZZ substituted)
+    pub default_arm: String,
     pub rows: Vec<Row>,
     /// family name -> (text of a missing sub-command, what an unknown sub-command ZZZ answers)
     pub families: Vec<Row>,
@@ -737,7 +741,7 @@ pub struct Extracted {
 
 /// the shape rows of one grammar, from its source text
 pub fn extract(src: &str, fn_name: &str, style: Style) -> Extracted {
-    let mut out = Extracted { rows: vec![], families: vec![], problems: vec![] };
+    let mut out = Extracted { helpers: vec![], default_arm: "?".into(), rows: vec![], families: vec![], problems: vec![] };
     let mut toks = lex(src);
     // the zero-copy twin uses the same helpers under `_zc` names
     for t in toks.iter_mut() {
@@ -750,8 +754,37 @@ pub fn extract(src: &str, fn_name: &str, style: Style) -> Extracted {
     let arr: &'static str = if style == Style::Resp { "elements" } else { "args" };
     let mpos = match find_pat(t, fpos, t.len(), "match cmd_name . as_str ( ) {", "") { Some((_, e, _)) => e - 1, None => { out.problems.push("match cmd_name.as_str() not found".into()); return out; } };
     let arms = parse_arms(t, mpos);
+    // the extract helpers (RESP parsers)
+    if style == Style::Resp {
+        for h in ["extract_string", "extract_sds", "extract_integer", "extract_float", "extract_i64", "extract_u64"] {
+            if let Some((hs, he, _)) = find_pat(t, 0, t.len(), &format!("fn {} (", h), "") {
+                let lb = (he..t.len()).find(|i| is_p(&t[*i], "{"));
+                if let Some(lb) = lb {
+                    let rb = close_of(t, lb).unwrap_or(lb);
+                    let _ = hs;
+                    let ty = find_pat(t, lb, rb, "parse :: < $i > ( )", "").map(|(_, _, c)| match c[0].as_str() { "isize" | "i64" => "int64".to_string(), o => o.to_string() }).unwrap_or_else(|| "-".into());
+                    let perr = if let Some((_, _, c)) = find_pat(t, lb, rb, "map_err ( | _ | $s", "") { hexs(&c[0]) }
+                        else if find_pat(t, lb, rb, "map_err ( | e | e . to_string ( ) )", "").is_some() { "std".to_string() }
+                        else { "-".to_string() };
+                    let lits: BTreeSet<String> = (lb..rb).filter_map(|i| match &t[i] { Tk::Str(x) => Some(hexs(x)), _ => None }).collect();
+                    let mut r: Row = BTreeMap::new();
+                    r.insert("name".into(), h.to_string());
+                    r.insert("ty".into(), ty);
+                    r.insert("perr".into(), perr);
+                    r.insert("lits".into(), lits.into_iter().collect::<Vec<_>>().join(";"));
+                    out.helpers.push(r);
+                }
+            }
+        }
+    }
     for a in &arms {
-        if arm_is_default(a) { continue; }
+        if arm_is_default(a) {
+            let (bs, _) = a.body;
+            out.default_arm = if m_at(t, bs, "Ok ( Command :: Unknown ( cmd_name ) )", arr).is_some() { format!("OK_Unknown_s{}", hexs("ZZZ")) }
+                else if let Some((_, c)) = m_at(t, bs, "Err ( format ! ( $s , cmd_name ) )", arr) { format!("ERR_{}", hexs(&c[0].replace("{}", "ZZZ"))) }
+                else { "?".to_string() };
+            continue;
+        }
         let names = arm_names(a);
         let (bs, be) = a.body;
         // a family: `match subcommand.as_str() {` at depth 0 of the arm
